@@ -20,7 +20,7 @@ ASSUMPTIONS = [
 ]
 BOUNDS = {
     "quick": "batch of <= 2 operations over kinds {set, del, get, contains, copy}; keys {0,1} with all 4 subsets pre-existing, plus keys {0,1,2} with {0,2} pre-existing; abort position in [-1, len]; do_deletes symbolic",
-    "thorough": "batch of <= 3 operations over keys {0,1,2}, all 8 subsets of pre-existing keys (partitioned by subset x first operation)",
+    "thorough": "batch of <= 3 operations over keys {0,1,2}; pre-existing key sets {}, {0,2}, {0,1,2} (partitioned by set x first operation)",
 }
 OUTSIDE = "batches longer than the bound, more than 3 distinct keys, unhashable keys, wrapped databases whose writes fail"
 NONTRIVIAL_RULE = "path on which a read/contains/copy was answered from the buffer or read through a buffered delete, or a commit applied at least one buffered action"
@@ -211,7 +211,7 @@ def jobs(tier):
             for kind in range(5):
                 out.append({"fn": "h_batch", "cfg": {"mask": mask, "maxops": 2, "first": [kind, None], "nkeys": nkeys}, "pct": 600, "ppt": 20})
     else:
-        for mask in range(8):
+        for mask in (0, 5, 7):
             out.append({"fn": "h_batch", "cfg": {"mask": mask, "maxops": 0, "first": None}, "pct": 300, "ppt": 20})
             for kind in range(5):
                 for key in range(3):
